@@ -138,6 +138,8 @@ Lemma progs_examples :
   progs_ok {| p_hash := [FJwk]; p_sign := [FJwk]; p_keys := [FPub]; p_load := [FJwk; FKey; FPub] |} = false /\
   progs_ok {| p_hash := [FJwk]; p_sign := [FJwk; FKey]; p_keys := [FPub]; p_load := [FJwk; FKey] |} = false /\
   programs skeleton_now xs_fixed = Some progs_now /\
+  (* the hypothesis of C16_consistent_pair holds of the lock skeleton of the tree as it is *)
+  wf_skeleton skeleton_now = true /\ has_roles skeleton_now = true /\
   (* a Sign that takes the read lock once per field is not one section: no programs *)
   programs [("load", [ELock; EDeferUnlock; EWrite FJwk; EWrite FKey; EWrite FPub; ERet]); ("Hash", [ERLock; ERead FJwk; ERUnlock]);
             ("signWithHash", [ERLock; ERead FJwk; ERUnlock; ERLock; ERead FKey; ERUnlock; ERet]);
